@@ -18,17 +18,29 @@
 //!   (case-insensitively if the renamed occurrences were spelt in different cases, which no rename
 //!   can restore). Checked only if everything before held, so one defect is reported once.
 //!
+//! The renamed project is compiled and executed in a crash-isolated child (`iso`, worker
+//! `c16_run`): a rename can make a method call itself, and the runtime's unbounded recursion then
+//! overflows the stack.
+//!
+//! Strata: the slot skeleton (1-file, 2-file, twin-file layouts) and the inheritance skeleton
+//! (`generate_inherit`); findings of the latter that do not depend on the new name and are not
+//! already known from the slot skeleton carry the stratum in their signature
+//! (`C16/inherit:<unqualified-base|qualified-base|using-base>/<clause>/..`).
+//!
 //! Left out of the alphabet on purpose:
+//! * an inherited VAR_INPUT as named argument of a call of the derived instance (`d(inp1 := 1)`):
+//!   rejected by the real type checker; `USING Lib;` + `EXTENDS Base` is generated but rejected by
+//!   the real analyser (counted in `projects_rejected_by_compiler`);
 //! * new names containing `.` — `rename` treats them as a *namespace move*, a different refactoring
 //!   with a documented partial effect, not as "a valid new name" of the statement;
 //! * functions declared inside a NAMESPACE — the runtime stores their result in a global named
 //!   like the function (measured), so the original program is not a usable reference;
-//! * enum types / typed-literal prefixes, EXTENDS/IMPLEMENTS, properties, actions: not generated.
+//! * enum types / typed-literal prefixes, properties, actions: not generated.
 //! Keywords and invalid identifiers are in the alphabet with the same oracle: `rename` refuses, or
 //! whatever it accepts must satisfy every clause ("valid new name" = a name the gate lets pass).
 
 use crate::fw::*;
-use crate::iso::WorkerFn;
+use crate::iso::{self, WorkerFn};
 use crate::par::par_map;
 use serde_json::{json, Value};
 use std::collections::BTreeMap;
@@ -178,6 +190,61 @@ fn run_project(files: &[String], input_name: Option<&str>) -> RunObs {
     }
 }
 
+/// Worker (child process): compiles and executes one project. A renamed project can recurse
+/// without bound (a method renamed to the name of a method it calls) and overflow the stack, which
+/// aborts the process, so renamed projects are never executed in the explorer process.
+pub fn worker_run(case: &Value) -> Value {
+    let files = case_files(case);
+    match run_project(&files, case["input"].as_str()) {
+        Ok(cycles) => json!({"ok": cycles.iter().map(|(d, e)| json!([d, e])).collect::<Vec<_>>()}),
+        Err(m) => json!({"err": m}),
+    }
+}
+
+fn runner_cfg() -> &'static iso::PoolCfg {
+    static CFG: std::sync::OnceLock<iso::PoolCfg> = std::sync::OnceLock::new();
+    CFG.get_or_init(|| iso::PoolCfg {
+        worker: "c16_run",
+        procs: 1,
+        rlimit_as: 4 << 30,
+        per_case: Duration::from_secs(30),
+        deadline: None,
+        env: vec![],
+        stack: 8 << 20,
+    })
+}
+
+thread_local! {
+    static RUNNER: std::cell::RefCell<Option<iso::Worker<'static>>> = const { std::cell::RefCell::new(None) };
+}
+
+/// `run_project` in a crash-isolated child (one child per explorer thread).
+fn run_project_isolated(files: &[String], input_name: Option<&str>) -> RunObs {
+    let case = json!({"files": files, "input": input_name});
+    let outcome = RUNNER.with(|r| {
+        let mut r = r.borrow_mut();
+        r.get_or_insert_with(|| iso::Worker::new(runner_cfg())).call(&case)
+    });
+    match outcome {
+        Err(e) => Err(format!("machinery: {e}")),
+        Ok(iso::Outcome::Ok(v)) => {
+            if let Some(m) = v["err"].as_str() {
+                return Err(m.to_string());
+            }
+            let mut out = Vec::new();
+            for c in v["ok"].as_array().cloned().unwrap_or_default() {
+                let d: BTreeMap<String, String> = c[0].as_object().map(|o| o.iter().map(|(k, v)| (k.clone(), v.as_str().unwrap_or("").to_string())).collect()).unwrap_or_default();
+                let e: Vec<String> = c[1].as_array().map(|a| a.iter().map(|x| x.as_str().unwrap_or("").to_string()).collect()).unwrap_or_default();
+                out.push((d, e));
+            }
+            Ok(out)
+        }
+        Ok(iso::Outcome::Panic(m)) => Err(format!("panic: {m}")),
+        Ok(iso::Outcome::Died(m)) => Err(format!("abort: {}", m.lines().last().unwrap_or(""))),
+        Ok(iso::Outcome::Timeout) => Err("hang: no answer within 30 s".to_string()),
+    }
+}
+
 type Def = Option<(u32, u32, u32)>; // (file, start, end) of the definition
 
 fn def_at(db: &Database, file: u32, off: u32) -> Result<Def, String> {
@@ -273,6 +340,8 @@ impl Base {
                 .find(|t| t.0 == o)
                 .map(|t| token_text(&files, f, *t).to_string())
         });
+        // an input position that is no identifier token = the project has no input variable
+        let input = input.filter(|_| input_name.is_some());
         let run = run_project(&files, input_name.as_deref());
         let defs = binding_table(&db, &toks)?;
         Ok(Base { files, toks, diags, run, defs, input })
@@ -623,7 +692,15 @@ pub fn check_rename(base: &Base, db: &Database, file: u32, off: u32, new_name: &
             let (s, e) = maps[f as usize].map_range(t.0, t.1);
             new_files[f as usize].get(s as usize..e as usize).unwrap_or("").to_string()
         });
-        match run_project(&new_files, input_name2.as_deref()) {
+        match run_project_isolated(&new_files, input_name2.as_deref()) {
+            Err(m) if m.starts_with("machinery:") => {
+                out.findings.push(Finding { key: "machinery/worker".into(), what: m });
+                return out;
+            }
+            Err(m) if m.starts_with("abort:") || m.starts_with("hang:") => {
+                let k = if m.starts_with("abort:") { "abort" } else { "hang" };
+                beh_note = Some((k.into(), format!("executing the renamed project kills the process / does not return ({})", clip(&m, 160))));
+            }
             Err(m) => {
                 let first = m.lines().next().unwrap_or("");
                 beh_note = Some(("compile".into(), format!("the renamed project no longer compiles: {first}")));
@@ -770,6 +847,8 @@ const FRESH: &str = "q9";
 ///   from such projects (`baseline_keys`): `C16/<key>` (clause, detail, kind of the renamed symbol
 ///   or syntactic context of the missed occurrence); otherwise the cause is a pair of declarations
 ///   sharing a name in the original project: `C16/homonym/<kinds of the homonymous declarations>`;
+///   in the inheritance skeleton instead `C16/inherit:<stratum>/<key>` (stratum = how the base
+///   is named: unqualified-base, qualified-base, nested-qualified-base, using-base);
 /// * otherwise the cause is the collision of the new name with an existing one, and the
 ///   discriminating features are the relation of the colliding declaration to the scope of the
 ///   renamed one and whether the project has one or several files:
@@ -777,7 +856,7 @@ const FRESH: &str = "q9";
 ///   (`C16/gate/<keyword|invalid>/..` for names that should not have passed the validity gate,
 ///   `C16/case-of-old/<key>` for a pure case change of the old name).
 #[allow(clippy::too_many_arguments)]
-fn signature_of(key: &str, kind: &str, class: &str, fresh_keys: &[String], nfiles: usize, homonyms: &str, baseline_keys: &[String]) -> String {
+fn signature_of(key: &str, kind: &str, class: &str, fresh_keys: &[String], nfiles: usize, homonyms: &str, baseline_keys: &[String], stratum: Option<(&str, &[(String, String)])>) -> String {
     let is_structural = |k: &str| k.starts_with("panic/") || k.starts_with("edits/");
     if is_structural(key) {
         return format!("C16/{key}");
@@ -788,7 +867,15 @@ fn signature_of(key: &str, kind: &str, class: &str, fresh_keys: &[String], nfile
         fresh_keys.iter().map(String::as_str).find(|k| !is_structural(k))
     };
     if let Some(k) = name_independent {
-        return if homonyms.is_empty() || baseline_keys.iter().any(|b| b == k) { format!("C16/{k}") } else { format!("C16/homonym/{homonyms}") };
+        if baseline_keys.iter().any(|b| b == k) {
+            return format!("C16/{k}");
+        }
+        // inheritance skeleton: the stratum (how the base is named; nested namespaces count as
+        // qualified) is part of the signature, so that it depends on the case alone
+        if let Some((own, _known)) = stratum {
+            return format!("C16/inherit:{}/{k}", own.strip_prefix("nested-").unwrap_or(own));
+        }
+        return if homonyms.is_empty() { format!("C16/{k}") } else { format!("C16/homonym/{homonyms}") };
     }
     if class == "case-of-old" {
         return format!("C16/case-of-old/{key}");
@@ -866,12 +953,19 @@ pub fn check_case(case: &Value) -> Vec<Violation> {
     } else {
         check_rename(&base, &db, file, off, FRESH).findings.into_iter().map(|f| f.key).collect()
     };
-    let homonyms = if case["project"]["layout"].as_u64().unwrap_or(0) >= 4 { String::new() } else { base.homonyms() };
+    let homonyms = if case["project"]["layout"].as_u64().unwrap_or(0) >= 4 || case["project"]["inherit"].is_object() { String::new() } else { base.homonyms() };
+    let stratum: Option<(String, Vec<(String, String)>)> = case["project"]["inherit"]["form"].as_str().map(|f| {
+        let known = case["inherit_known"]
+            .as_array()
+            .map(|a| a.iter().filter_map(|e| Some((e[0].as_str()?.to_string(), e[1].as_str()?.to_string()))).collect())
+            .unwrap_or_default();
+        (f.to_string(), known)
+    });
     let baseline: Vec<String> = case["baseline_keys"].as_array().map(|a| a.iter().filter_map(|k| k.as_str().map(str::to_string)).collect()).unwrap_or_default();
     out.findings
         .iter()
         .map(|f| Violation {
-            signature: signature_of(&f.key, &out.kind, class, &fresh_keys, base.files.len(), &homonyms, &baseline),
+            signature: signature_of(&f.key, &out.kind, class, &fresh_keys, base.files.len(), &homonyms, &baseline, stratum.as_ref().map(|(s, k)| (s.as_str(), k.as_slice()))),
             what: format!("{} [clause {}; new-name class: {class}]", f.what, f.key),
             case: case.clone(),
         })
@@ -956,6 +1050,13 @@ fn scope_parent(s: u8) -> Option<u8> {
         0 => None,
         4 => Some(3),
         6 => Some(5),
+        // inheritance skeleton: 10 base, 11 mid (EXTENDS base), 12 derived (EXTENDS mid/base),
+        // 13..15 methods of base, 16 method of mid, 17..18 methods of derived, 19 interface
+        11 => Some(10),
+        12 => Some(11),
+        13..=15 => Some(10),
+        16 => Some(11),
+        17 | 18 => Some(12),
         _ => Some(0),
     }
 }
@@ -993,7 +1094,28 @@ pub struct ProjSpec {
     /// twin layouts only: index into ALIGN — pad the files so that the *declaration* of that
     /// symbol in file 0 sits at the same byte range as its last use in the consumer files
     pub align: Option<usize>,
+    /// the inheritance skeleton instead of the slot skeleton (then d is empty, layout 1 or 2)
+    pub inherit: Option<Inh>,
 }
+
+/// One project of the inheritance stratum.
+#[derive(Clone, Copy, Debug)]
+pub struct Inh {
+    /// false: FUNCTION_BLOCKs, true: CLASSes
+    pub class: bool,
+    /// index into INH_FORMS: how the derived type names its base
+    pub form: usize,
+    /// 1: Derived EXTENDS Base; 2: Mid EXTENDS Base, Derived EXTENDS Mid
+    pub levels: u8,
+    /// Base IMPLEMENTS an interface and the program calls through an interface-typed variable
+    pub iface: bool,
+}
+
+/// Strata of the inheritance skeleton, simplest first: base at top level (`EXTENDS Base`), base
+/// in a namespace (`EXTENDS Lib.Base`), base in a nested namespace (`EXTENDS A.B.Base`), base in
+/// a namespace named through `USING Lib;` + `EXTENDS Base` (not accepted by the real analyser at
+/// the time of writing: such projects are generated and counted as rejected).
+const INH_FORMS: &[&str] = &["unqualified-base", "qualified-base", "nested-qualified-base", "using-base"];
 
 /// symbols (slots) whose declaration can be aligned with a use in the twin layouts
 const ALIGN: &[&str] = &["FN", "TY", "FB", "TF", "NF", "MN", "BO", "NS"];
@@ -1034,7 +1156,119 @@ impl Emit {
     }
 }
 
+/// The inheritance skeleton. Template tokens `<name@scope>` are identifier occurrences tagged
+/// with the scope that declares the name (see `scope_parent`).
+///
+/// Members declared in the base: input `inp1`, output `outp` (FB only), variable `level`, methods
+/// `Bump`, `Calc` (overridden in the derived type), `Peek`. They are used (a) inside the derived
+/// type unqualified (`level`, `Bump()`), through `THIS.` and `SUPER.`, (b) through an instance of
+/// the derived type in a program (`d.level`, `d.Bump()`, `d.Calc(ca := 2)`, `d.outp`, `d.Peek()`;
+/// `outp` and `Peek` *only* that way), (c) optionally through an interface-typed variable.
+/// An inherited VAR_INPUT as named argument of the derived instance (`d(inp1 := 1)`) is rejected
+/// by the real type checker ("expected 0 arguments"), so the call passes the derived type's own
+/// input `din`.
+fn generate_inherit(spec: &ProjSpec, inh: Inh) -> Proj {
+    let fb = !inh.class;
+    let (kw, end) = if fb { ("FUNCTION_BLOCK", "END_FUNCTION_BLOCK") } else { ("CLASS", "END_CLASS") };
+    let (ns_open, ns_close, base_ref, using) = match inh.form {
+        0 => ("", "", "<Base@0>", ""),
+        1 => ("NAMESPACE <Lib@0>\n", "END_NAMESPACE\n", "<Lib@0>.<Base@0>", ""),
+        2 => ("NAMESPACE <A@0>\nNAMESPACE <B@0>\n", "END_NAMESPACE\nEND_NAMESPACE\n", "<A@0>.<B@0>.<Base@0>", ""),
+        _ => ("NAMESPACE <Lib@0>\n", "END_NAMESPACE\n", "<Base@0>", "USING <Lib@0>;\n"),
+    };
+    let mut a = String::new();
+    if inh.iface {
+        a += "INTERFACE <IBump@0>\nMETHOD <Bump@19> : INT\nEND_METHOD\nEND_INTERFACE\n";
+    }
+    a += ns_open;
+    a += &format!("{kw} <Base@0>{}\n", if inh.iface { " IMPLEMENTS <IBump@0>" } else { "" });
+    if fb {
+        a += "VAR_INPUT <inp1@10> : INT; END_VAR\nVAR_OUTPUT <outp@10> : INT; END_VAR\n";
+    }
+    a += "VAR PUBLIC <level@10> : INT := 5; END_VAR\n";
+    a += "METHOD PUBLIC <Bump@10> : INT\n  <level@10> := <level@10> + 1;\n  <Bump@10> := <level@10>;\nEND_METHOD\n";
+    a += "METHOD PUBLIC <Calc@10> : INT\nVAR_INPUT <ca@14> : INT; END_VAR\n  <Calc@10> := <ca@14> + <level@10>;\nEND_METHOD\n";
+    a += "METHOD PUBLIC <Peek@10> : INT\n  <Peek@10> := <level@10> + THIS.<level@10>;\nEND_METHOD\n";
+    if fb {
+        a += "  <outp@10> := <inp1@10> + <level@10>;\n";
+    }
+    a += &format!("{end}\n{ns_close}");
+    let mut b = String::from(using);
+    let mut parent = base_ref.to_string();
+    if inh.levels == 2 {
+        b += &format!("{kw} <Mid@0> EXTENDS {base_ref}\nVAR PUBLIC <midv@11> : INT := 3; END_VAR\nMETHOD PUBLIC <MidM@11> : INT\n  <MidM@11> := <midv@11> + <level@10>;\nEND_METHOD\n{end}\n");
+        parent = "<Mid@0>".to_string();
+    }
+    b += &format!("{kw} <Derived@0> EXTENDS {parent}\n");
+    if fb {
+        b += "VAR_INPUT <din@12> : INT; END_VAR\n";
+    }
+    b += "VAR PUBLIC <own@12> : INT := 7; END_VAR\n";
+    b += "METHOD PUBLIC OVERRIDE <Calc@12> : INT\nVAR_INPUT <ca@17> : INT; END_VAR\n  <Calc@12> := SUPER.<Calc@10>(<ca@14> := <ca@17>) + <own@12> + THIS.<level@10> + <level@10>;\nEND_METHOD\n";
+    b += "METHOD PUBLIC <Twice@12> : INT\n  <Twice@12> := <Bump@10>() + THIS.<Bump@10>();\nEND_METHOD\n";
+    if fb {
+        b += "  <own@12> := <own@12> + <level@10> + <din@12>;\n";
+    }
+    b += &format!("{end}\n");
+    b += "PROGRAM <Main@0>\nVAR\n  <d@7> : <Derived@0>;\n  <r1@7> : INT; <r2@7> : INT; <r3@7> : INT; <r4@7> : INT; <r5@7> : INT; <r6@7> : INT;\n";
+    if inh.iface {
+        b += "  <ib@7> : <IBump@0>;\n";
+    }
+    b += "END_VAR\n";
+    if fb {
+        b += "  <d@7>(<din@12> := 1);\n";
+    }
+    b += "  <r1@7> := <d@7>.<level@10>;\n  <r2@7> := <d@7>.<Bump@10>();\n  <r3@7> := <d@7>.<Calc@12>(<ca@17> := 2);\n";
+    b += if fb { "  <r4@7> := <d@7>.<outp@10> + <d@7>.<Peek@10>();\n" } else { "  <r4@7> := <d@7>.<Peek@10>();\n" };
+    b += "  <r5@7> := <d@7>.<own@12> + <d@7>.<Twice@12>();\n";
+    if inh.levels == 2 {
+        b += "  <r6@7> := <d@7>.<midv@11> + <d@7>.<MidM@11>();\n";
+    }
+    if inh.iface {
+        b += "  <ib@7> := <d@7>;\n  <r6@7> := <r6@7> + <ib@7>.<Bump@19>();\n";
+    }
+    b += "END_PROGRAM\n";
+    let emit = |tpl: &str| -> Emit {
+        let mut e = Emit { text: String::new(), marks: Vec::new(), names: Vec::new() };
+        let mut rest = tpl;
+        while let Some(i) = rest.find('<') {
+            e.text.push_str(&rest[..i]);
+            let j = rest[i..].find('>').expect("template") + i;
+            let (n, sc) = rest[i + 1..j].split_once('@').expect("template tag");
+            let sc: u8 = sc.parse().expect("scope");
+            e.marks.push((e.text.len() as u32, sc));
+            e.names.push((n.to_string(), sc));
+            e.text.push_str(n);
+            rest = &rest[j + 1..];
+        }
+        e.text.push_str(rest);
+        e
+    };
+    let parts: Vec<Emit> = if spec.layout == 1 { vec![emit(&format!("{a}{b}"))] } else { vec![emit(&a), emit(&b)] };
+    let mut tok_scope = BTreeMap::new();
+    let mut declared: BTreeMap<String, (Vec<String>, Vec<u8>)> = BTreeMap::new();
+    for (f, e) in parts.iter().enumerate() {
+        for (p, sc) in &e.marks {
+            tok_scope.insert((f as u32, *p), *sc);
+        }
+        for (n, sc) in &e.names {
+            let d = declared.entry(n.to_ascii_lowercase()).or_default();
+            if !d.0.iter().any(|x| x == n) {
+                d.0.push(n.clone());
+            }
+            if !d.1.contains(sc) {
+                d.1.push(*sc);
+            }
+        }
+    }
+    // no input variable: the offset points at no token
+    Proj { spec: spec.clone(), files: parts.into_iter().map(|e| e.text).collect(), input: (0, u32::MAX), tok_scope, declared }
+}
+
 pub fn generate(spec: &ProjSpec) -> Proj {
+    if let Some(inh) = spec.inherit {
+        return generate_inherit(spec, inh);
+    }
     let name_of = |slot: &str| -> (String, u8) {
         let i = SLOTS.iter().position(|s| s.0 == slot).expect("slot");
         if spec.d.contains(&i) {
@@ -1203,7 +1437,13 @@ const BUILTINS: &[&str] = &["TON", "ABS"];
 pub fn new_names(p: &Proj, old: &str, scope: u8, quick: bool) -> Vec<(String, String)> {
     let mut out: Vec<(String, String)> = Vec::new();
     let mut cands: Vec<String> = vec![FRESH.into(), "x".into(), swap_case(old), "y".into(), "z".into()];
-    if !quick {
+    if p.spec.inherit.is_some() {
+        // collision targets of the inheritance skeleton: a base member, a derived member, a program local
+        cands = vec![FRESH.into(), swap_case(old), "level".into(), "own".into()];
+        if !quick {
+            cands.extend(["r1".to_string(), "LEVEL".to_string(), "Bump".to_string(), BUILTINS[0].to_string()]);
+        }
+    } else if !quick {
         cands.extend(["X".to_string(), "v".to_string(), "Y".to_string()]);
         cands.extend(BUILTINS.iter().map(|s| s.to_string()));
     }
@@ -1268,7 +1508,8 @@ fn case_json(p: &Proj, file: u32, off: u32, new_name: &str, class: &str) -> Valu
         "offset": off,
         "new_name": new_name,
         "class": class,
-        "project": {"x_slots": p.spec.d.iter().map(|i| SLOTS[*i].0).collect::<Vec<_>>(), "layout": p.spec.layout, "mixed_case": p.spec.mixed, "aligned": p.spec.align.map(|a| ALIGN[a])},
+        "project": {"x_slots": p.spec.d.iter().map(|i| SLOTS[*i].0).collect::<Vec<_>>(), "layout": p.spec.layout, "mixed_case": p.spec.mixed, "aligned": p.spec.align.map(|a| ALIGN[a]),
+            "inherit": p.spec.inherit.map(|i| json!({"kind": if i.class { "class" } else { "fb" }, "form": INH_FORMS[i.form], "levels": i.levels, "interface": i.iface}))},
     })
 }
 
@@ -1296,6 +1537,7 @@ struct Stats {
     multi_file: u64,
     by_class: BTreeMap<String, (u64, u64)>, // class -> (cases, accepted)
     by_kind: BTreeMap<String, (u64, u64)>,  // kind of the target -> (cases, accepted)
+    by_stratum: BTreeMap<String, (u64, u64)>, // inheritance stratum -> (cases, accepted)
     binding_only: u64,
     same_range: u64,
     binding_only_sample: Option<String>,
@@ -1314,33 +1556,57 @@ pub fn run(ctx: &Ctx) -> EngineResult {
     match ctx.tier {
         Tier::Quick => {
             for d in subsets(n, 1) {
-                specs.push(ProjSpec { d, layout: 1, mixed: false, align: None });
+                specs.push(ProjSpec { d, layout: 1, mixed: false, align: None, inherit: None });
             }
-            specs.push(ProjSpec { d: Vec::new(), layout: 2, mixed: false, align: None });
-            specs.push(ProjSpec { d: Vec::new(), layout: 2, mixed: true, align: None });
+            specs.push(ProjSpec { d: Vec::new(), layout: 2, mixed: false, align: None, inherit: None });
+            specs.push(ProjSpec { d: Vec::new(), layout: 2, mixed: true, align: None, inherit: None });
             // twin files: plain, and with the declaration of the function aligned with its uses
-            specs.push(ProjSpec { d: Vec::new(), layout: 4, mixed: false, align: None });
-            specs.push(ProjSpec { d: Vec::new(), layout: 4, mixed: false, align: Some(0) });
+            specs.push(ProjSpec { d: Vec::new(), layout: 4, mixed: false, align: None, inherit: None });
+            specs.push(ProjSpec { d: Vec::new(), layout: 4, mixed: false, align: Some(0), inherit: None });
+            // inheritance skeleton, stratum-major (simplest first)
+            let inh = |class, form, levels, layout| ProjSpec { d: Vec::new(), layout, mixed: false, align: None, inherit: Some(Inh { class, form, levels, iface: false }) };
+            for form in 0..INH_FORMS.len() {
+                specs.push(inh(false, form, 1, 1));
+                if form < 3 {
+                    specs.push(inh(false, form, 1, 2));
+                }
+                if form == 1 {
+                    specs.push(inh(false, form, 2, 1));
+                    specs.push(inh(true, form, 1, 1));
+                }
+            }
         }
         Tier::Thorough => {
             for d in subsets(n, 1) {
                 for (layout, mixed) in [(1, false), (2, false), (2, true), (3, false)] {
-                    specs.push(ProjSpec { d: d.clone(), layout, mixed, align: None });
+                    specs.push(ProjSpec { d: d.clone(), layout, mixed, align: None, inherit: None });
                 }
             }
             // twin files (2 and 3 consumers), plain and with each alignable declaration aligned
             for layout in [4, 5] {
-                specs.push(ProjSpec { d: Vec::new(), layout, mixed: false, align: None });
+                specs.push(ProjSpec { d: Vec::new(), layout, mixed: false, align: None, inherit: None });
             }
             for a in 0..ALIGN.len() {
-                specs.push(ProjSpec { d: Vec::new(), layout: 4, mixed: false, align: Some(a) });
+                specs.push(ProjSpec { d: Vec::new(), layout: 4, mixed: false, align: Some(a), inherit: None });
             }
-            specs.push(ProjSpec { d: Vec::new(), layout: 5, mixed: false, align: Some(0) });
-            for d in subsets(n, 2).into_iter().filter(|d| d.len() == 2) {
-                specs.push(ProjSpec { d, layout: 1, mixed: false, align: None });
+            specs.push(ProjSpec { d: Vec::new(), layout: 5, mixed: false, align: Some(0), inherit: None });
+            // inheritance skeleton: full product, stratum-major (simplest first)
+            for form in 0..INH_FORMS.len() {
+                for class in [false, true] {
+                    for levels in [1, 2] {
+                        for layout in [1, 2] {
+                            for iface in [false, true] {
+                                specs.push(ProjSpec { d: Vec::new(), layout, mixed: false, align: None, inherit: Some(Inh { class, form, levels, iface }) });
+                            }
+                        }
+                    }
+                }
             }
             for d in subsets(n, 2).into_iter().filter(|d| d.len() == 2) {
-                specs.push(ProjSpec { d, layout: 2, mixed: false, align: None });
+                specs.push(ProjSpec { d, layout: 1, mixed: false, align: None, inherit: None });
+            }
+            for d in subsets(n, 2).into_iter().filter(|d| d.len() == 2) {
+                specs.push(ProjSpec { d, layout: 2, mixed: false, align: None, inherit: None });
             }
         }
     }
@@ -1381,7 +1647,12 @@ pub fn run(ctx: &Ctx) -> EngineResult {
     {
         return machinery("no twin-file project is error-free: the twin layouts are vacuous");
     }
-    if !usable.iter().any(|(i, _)| projs[*i].spec.d.is_empty()) {
+    for form in 0..3 {
+        if !usable.iter().any(|(i, _)| projs[*i].spec.inherit.is_some_and(|h| h.form == form)) {
+            return machinery(format!("no error-free project in the inheritance stratum {}", INH_FORMS[form]));
+        }
+    }
+    if !usable.iter().any(|(i, _)| projs[*i].spec.d.is_empty() && projs[*i].spec.inherit.is_none() && projs[*i].spec.layout == 1) {
         return machinery("the skeleton without any x is not error-free: the generator is broken");
     }
 
@@ -1424,6 +1695,13 @@ pub fn run(ctx: &Ctx) -> EngineResult {
             e.0 += 1;
             let k = st.by_kind.entry(o.kind.clone()).or_default();
             k.0 += 1;
+            if let Some(h) = p.spec.inherit {
+                let e = st.by_stratum.entry(INH_FORMS[h.form].to_string()).or_default();
+                e.0 += 1;
+                if o.accepted && o.edits > 0 {
+                    e.1 += 1;
+                }
+            }
             if o.accepted {
                 st.accepted += 1;
                 e.1 += 1;
@@ -1461,8 +1739,9 @@ pub fn run(ctx: &Ctx) -> EngineResult {
     });
     // (the consumers of the twin layouts declare the same local names by construction; that is
     // not a homonym pair in the sense of the |D| = 2 projects)
-    let homonyms: Vec<String> = usable.iter().map(|(pi, b)| if projs[*pi].spec.layout >= 4 { String::new() } else { b.homonyms() }).collect();
+    let homonyms: Vec<String> = usable.iter().map(|(pi, b)| if projs[*pi].spec.layout >= 4 || projs[*pi].spec.inherit.is_some() { String::new() } else { b.homonyms() }).collect();
     let mut baseline: Vec<String> = Vec::new();
+    let mut inherit_known: Vec<(String, String)> = Vec::new();
     let mut tot = Stats::default();
     let mut exhaustive = true;
     let done = crate::par::completed_prefix(&res);
@@ -1491,16 +1770,34 @@ pub fn run(ctx: &Ctx) -> EngineResult {
                     e.0 += a;
                     e.1 += b;
                 }
+                for (k, (a, b)) in st.by_stratum {
+                    let e = tot.by_stratum.entry(k).or_default();
+                    e.0 += a;
+                    e.1 += b;
+                }
                 for r in v {
+                    if r.key.starts_with("machinery/") {
+                        return machinery(format!("isolated execution failed: {}", r.what));
+                    }
                     let (pi, base) = &usable[r.usable];
                     let hom = &homonyms[r.usable];
-                    if hom.is_empty() && projs[*pi].spec.layout < 4 && (r.class == "fresh") && !baseline.contains(&r.key) {
+                    if hom.is_empty() && projs[*pi].spec.layout < 4 && projs[*pi].spec.inherit.is_none() && (r.class == "fresh") && !baseline.contains(&r.key) {
                         baseline.push(r.key.clone());
                     }
-                    let signature = signature_of(&r.key, &r.kind, &r.class, &r.fresh_keys, base.files.len(), hom, &baseline);
+                    let stratum = projs[*pi].spec.inherit.map(|i| INH_FORMS[i.form]);
+                    if let Some(st) = stratum {
+                        let fresh_failure = r.class == "fresh" && !(r.key.starts_with("panic/") || r.key.starts_with("edits/"));
+                        if fresh_failure && !baseline.contains(&r.key) && !inherit_known.iter().any(|(k, _)| *k == r.key) {
+                            inherit_known.push((r.key.clone(), st.to_string()));
+                        }
+                    }
+                    let signature = signature_of(&r.key, &r.kind, &r.class, &r.fresh_keys, base.files.len(), hom, &baseline, stratum.map(|s| (s, inherit_known.as_slice())));
                     if !rep.violation_counts.contains_key(&signature) {
                         let mut case = case_json(&projs[*pi], r.file, r.off, &r.new_name, &r.class);
                         case["baseline_keys"] = json!(baseline);
+                        if stratum.is_some() {
+                            case["inherit_known"] = json!(inherit_known.iter().map(|(k, s)| json!([k, s])).collect::<Vec<_>>());
+                        }
                         case["homonyms"] = json!(hom);
                         rep.violation(Violation { signature, what: format!("{} [clause {}; new-name class: {}]", r.what, r.key, r.class), case });
                     } else {
@@ -1536,7 +1833,7 @@ pub fn run(ctx: &Ctx) -> EngineResult {
     }
     rep.set("evaluations", tot.cases);
     rep.set("distinct_nontrivial", tot.accepted_with_edits);
-    rep.set("rule", format!("cases = (generated project, identifier token, new name): projects = one skeleton (struct type, configuration with globals and a program instance, function, namespace with an FB, FB with method, program) in which every subset D (|D| <= {}) of {} declaration slots is named `x` (all other slots have unique names), in 1-file/2-file layouts and uniform/mixed-case spelling, plus (D empty) the twin-file layouts: all shared declarations in file 0 and 2 or 3 consumer programs in files that are byte-identical except for same-length names, plain and padded so that a declaration in file 0 has the same byte range as its uses in the consumers; kept only if the real compiler accepts them; every identifier token of every file is a rename position; new names = {}. distinct_nontrivial = cases in which rename returned at least one edit, so that the edited project was re-analysed, compiled, executed for 3 cycles and compared (all cases are distinct by construction).", ctx.tier.pick(1, 2), SLOTS.len(), ctx.tier.pick("{fresh q9, x, case-swapped old name, y, z, 1 keyword, 2 invalid}", "{fresh q9, x, X, case-swapped old name, y, z, v, Y, TON, ABS, 4 keywords, 9 invalid}")));
+    rep.set("rule", format!("cases = (generated project, identifier token, new name): projects = one skeleton (struct type, configuration with globals and a program instance, function, namespace with an FB, FB with method, program) in which every subset D (|D| <= {}) of {} declaration slots is named `x` (all other slots have unique names), in 1-file/2-file layouts and uniform/mixed-case spelling, plus (D empty) the twin-file layouts: all shared declarations in file 0 and 2 or 3 consumer programs in files that are byte-identical except for same-length names, plain and padded so that a declaration in file 0 has the same byte range as its uses in the consumers; plus the inheritance skeleton (base FB/CLASS at top level, in a namespace, in a nested namespace, or named through USING; derived type one or two levels below; members of the base used unqualified, through THIS/SUPER, through an instance of the derived type, optionally through an interface variable; 1 and 2 files; own new-name menu: fresh, case-swapped, level, own, in thorough also r1, LEVEL, Bump, TON); kept only if the real compiler accepts them; every identifier token of every file is a rename position; new names = {}. distinct_nontrivial = cases in which rename returned at least one edit, so that the edited project was re-analysed, compiled, executed for 3 cycles and compared (all cases are distinct by construction).", ctx.tier.pick(1, 2), SLOTS.len(), ctx.tier.pick("{fresh q9, x, case-swapped old name, y, z, 1 keyword, 2 invalid}", "{fresh q9, x, X, case-swapped old name, y, z, v, Y, TON, ABS, 4 keywords, 9 invalid}")));
     rep.set("projects_generated", projs.len() as u64);
     rep.set("projects_error_free", usable.len() as u64);
     rep.set("projects_rejected_by_compiler", rejected);
@@ -1555,6 +1852,10 @@ pub fn run(ctx: &Ctx) -> EngineResult {
         rep.set("goto_definition_only_difference_sample", b);
     }
     rep.set("by_new_name_class_cases_accepted", json!(tot.by_class.iter().map(|(k, v)| (k.clone(), json!([v.0, v.1]))).collect::<serde_json::Map<_, _>>()));
+    rep.set("by_inheritance_stratum_cases_executed", json!(tot.by_stratum.iter().map(|(k, v)| (k.clone(), json!([v.0, v.1]))).collect::<serde_json::Map<_, _>>()));
+    if exhaustive && tot.by_stratum.get(INH_FORMS[1]).is_none_or(|v| v.1 == 0) {
+        return machinery("no rename was executed in the inheritance stratum qualified-base");
+    }
     rep.set("by_target_kind_cases_accepted", json!(tot.by_kind.iter().map(|(k, v)| (k.clone(), json!([v.0, v.1]))).collect::<serde_json::Map<_, _>>()));
     rep.set("violation_counts", json!(rep.violation_counts.iter().map(|(k, v)| (k.clone(), json!(v))).collect::<serde_json::Map<_, _>>()));
     rep.set("max_x_slots", ctx.tier.pick(1u64, 2u64));
@@ -1569,5 +1870,5 @@ pub fn run(ctx: &Ctx) -> EngineResult {
 }
 
 pub fn workers() -> Vec<(&'static str, WorkerFn)> {
-    Vec::new()
+    vec![("c16_run", worker_run as WorkerFn)]
 }
